@@ -328,6 +328,11 @@ class Flow:
                 elif isinstance(F, ast.Constant) and F.value is None:
                     pn = '_elt'
                     body = ast.copy_location(ast.Name(id='_elt', ctx=ast.Load()), e)
+                elif dotted(F) is not None:
+                    # filter(pred, X)  ==  (p for p in X if pred(p))
+                    pn = '_elt'
+                    body = ast.copy_location(ast.Call(func=F, args=[ast.copy_location(ast.Name(id='_elt', ctx=ast.Load()), e)], keywords=[]), e)
+                    ast.fix_missing_locations(body)
                 if pn is not None and body is not None:
                     tgt = ast.copy_location(ast.Name(id=pn, ctx=ast.Store()), e)
                     ld = ast.copy_location(ast.Name(id=pn, ctx=ast.Load()), e)
